@@ -176,7 +176,7 @@ func runWorker(worker string, job *Job, race bool, timeout time.Duration) (resul
 	os.MkdirAll(filepath.Join(scratch, "tmp"), 0o755)
 	cmd.Env = append(os.Environ(), "VCHECK_JOB="+jf.Name(), "GODEBUG=randautoseed=0", "GOGC=off", "GOTRACEBACK=all", "TMPDIR="+filepath.Join(scratch, "tmp"))
 	if race {
-		cmd.Env = append(cmd.Env, "GORACE=halt_on_error=0 exitcode=66 history_size=3")
+		cmd.Env = append(cmd.Env, "GORACE=halt_on_error=0 exitcode=0 history_size=3")
 	}
 	var stderr bytes.Buffer
 	cmd.Stdout = &stderr
@@ -233,6 +233,20 @@ func runWorker(worker string, job *Job, race bool, timeout time.Duration) (resul
 	if timedOut {
 		return results, nil, st, fmt.Errorf("worker timed out after %v (last started seed %d)", timeout, started)
 	}
+	if race && !hang {
+		if sig, n := raceSignature(stderr.String()); sig != "" && len(job.Seeds) == 1 {
+			// one run per process under -race: the report belongs to this run
+			cr := &Result{Seed: job.Seeds[0], Scenario: job.Scenario, Prop: job.Prop, Crash: sig, Args: job.Args}
+			if len(results) == 1 {
+				cr.Journal, cr.Tape = results[0].Journal, results[0].Tape
+				if results[0].Violation != nil {
+					return results, nil, st, nil // an oracle failure takes precedence
+				}
+			}
+			_ = n
+			return nil, cr, tailStr(raceBlock(stderr.String()), 1<<15), nil
+		}
+	}
 	if !doneSeen || werr != nil {
 		if haveStart {
 			cr := &Result{Seed: started, Scenario: job.Scenario, Prop: job.Prop, Crash: crashSignature(stderr.String()), Args: job.Args}
@@ -278,6 +292,67 @@ func crashSignature(stderr string) string {
 		tail = tail[len(tail)-300:]
 	}
 	return "worker died: " + strings.ReplaceAll(strings.TrimSpace(tail), "\n", " | ")
+}
+
+var reAccess = regexp.MustCompile(`(?m)^(Previous )?([Ww]rite|[Rr]ead|[Aa]tomic [a-z]+) at 0x[0-9a-f]+ by (main )?goroutine`)
+
+// raceSignature looks for race-detector reports in which BOTH accesses have a frame of the
+// repository under test (reports inside the simulator or between the simulator and the
+// system are not counted) and returns a stable signature naming the two functions.
+func raceSignature(stderr string) (string, int) {
+	blocks := strings.Split(stderr, "==================")
+	n := 0
+	first := ""
+	for _, b := range blocks {
+		if !strings.Contains(b, "WARNING: DATA RACE") {
+			continue
+		}
+		loc := reAccess.FindAllStringIndex(b, -1)
+		if len(loc) < 2 {
+			continue
+		}
+		end := strings.Index(b[loc[1][0]:], "\n\n")
+		secs := []string{b[loc[0][0]:loc[1][0]]}
+		if end >= 0 {
+			secs = append(secs, b[loc[1][0]:loc[1][0]+end])
+		} else {
+			secs = append(secs, b[loc[1][0]:])
+		}
+		var fns []string
+		for _, sec := range secs {
+			fn := ""
+			for _, ln := range strings.Split(sec, "\n") {
+				ln = strings.TrimSpace(ln)
+				if strings.HasPrefix(ln, "github.com/bolkedebruin/rdpgw/") && !strings.HasPrefix(ln, "github.com/bolkedebruin/rdpgw/simhook") {
+					fn = strings.TrimPrefix(ln, "github.com/bolkedebruin/rdpgw/")
+					if i := strings.LastIndex(fn, "("); i > 0 {
+						fn = fn[:i]
+					}
+					break
+				}
+			}
+			if fn != "" {
+				fns = append(fns, fn)
+			}
+		}
+		if len(fns) == 2 {
+			n++
+			sort.Strings(fns)
+			sig := "DATA RACE " + fns[0] + " <-> " + fns[1]
+			if first == "" || sig < first {
+				first = sig
+			}
+		}
+	}
+	return first, n
+}
+
+func raceBlock(stderr string) string {
+	i := strings.Index(stderr, "WARNING: DATA RACE")
+	if i < 0 {
+		return stderr
+	}
+	return stderr[i:]
 }
 
 type knownFinding struct {
